@@ -175,3 +175,24 @@ Inductive spawn_reach : spawn_state -> Prop :=
 | spr_step s s' : spawn_reach s -> spawn_step s s' -> spawn_reach s'.
 
 Definition n_live (js : list jstate) : Z := Z.of_nat (length (filter j_live js)).
+
+(* ---- DoTimes (sync.go:84-86) = ft.DoTimes(n, func() { wg.Launch(ctx, op) });  ft.DoTimes (ft/ft.go:187-191) is
+   `for i := 0; i < n; i++ { op() }` — for n <= 0 the loop body never runs.  Operation.StartGroup calls DoTimes. *)
+
+(* executable: the counter after `iters` Launches in a row (none of the goroutines finished yet) *)
+Fixpoint launch_counter (iters : nat) (c : Z) : Z :=
+  match iters with O => c | S k => launch_counter k (fst (fst (wg_add c 1))) end.
+
+(* the loop `for i := 0; i < n; i++`: Z.to_nat n iterations (none when n is negative) *)
+Definition dotimes_iters (n : Z) : nat := Z.to_nat n.
+Definition dotimes_counter (n : Z) (c : Z) : Z := launch_counter (dotimes_iters n) c.
+
+(* on the spawn model: DoTimes n is its loop, each iteration one Launch step *)
+Inductive launch_times : nat -> spawn_state -> spawn_state -> Prop :=
+| lt_zero s : launch_times O s s
+| lt_succ k s c' bc s' :
+    wg_add (sp_counter s) 1 = (c', RUnit, bc) ->
+    launch_times k (mkSpawn c' (sp_ext s) (sp_jobs s ++ [JCounted])) s' ->
+    launch_times (S k) s s'.
+
+Definition spawn_dotimes (n : Z) (s s' : spawn_state) : Prop := launch_times (dotimes_iters n) s s'.
